@@ -99,6 +99,7 @@ func main() {
 		pprof.Do(context.Background(), pprof.Labels("vcase", label), func(ctx context.Context) {
 			v = p.Run(c, env)
 		})
+		v.Add("wall_ms", int(time.Since(time.Unix(0, caseStart.Load())).Milliseconds()))
 		caseStart.Store(0)
 		perturb.Off()
 		emit("E", &v.Verdict)
